@@ -180,9 +180,12 @@ func strLit(s string) *Term {
 	}
 	t := Const(name, sortStr)
 	strLits[s] = t
+	strLitOf[t] = s
 	strLitOrder = append(strLitOrder, s)
 	return t
 }
+
+var strLitOf = map[*Term]string{}
 
 // type tags for interfaces
 var typeTags = map[string]int{}
@@ -218,7 +221,8 @@ func sortTag(s string) string {
 // their own heaps ("Ref"), so that reference well-formedness can be stated per heap.
 func heapClass(t types.Type) string {
 	if isPointerLike(t) {
-		return "Ref"
+		// Go's typed pointers: a []*A can never alias a []*B
+		return "Ref_" + mangleType(t)
 	}
 	return sortTag(sortOf(t))
 }
